@@ -584,7 +584,19 @@ func evalLin(e *ir.Expr, keyParam string) (lin, error) {
 		return constLin(n), nil
 	case "conv":
 		return evalLin(e.Args[0], keyParam)
+	case "call":
+		// len(<section prefix variable>): the prefix is one byte (as layoutExtents assumes)
+		if e.Name == "builtin:len" && len(e.Args) == 1 && e.Args[0].Op == "global" {
+			return constLin(1), nil
+		}
 	case "bin":
+		// a length byte read off the key must be widened before it is added to anything: in byte arithmetic 1+len wraps
+		// to 0 for a 255-byte address (and the next segment is then read from the wrong place)
+		for _, a := range e.Args {
+			if a.Op == "elem" {
+				return lin{}, fmt.Errorf("offset arithmetic on a length byte in byte width (%s): wraps for a 255-byte segment", e.String())
+			}
+		}
 		a, err := evalLin(e.Args[0], keyParam)
 		if err != nil {
 			return lin{}, err
@@ -658,6 +670,21 @@ func sliceOf(e *ir.Expr, keyParam string) (string, lin, error) {
 		}
 	case "conv":
 		return sliceOf(e.Args[0], keyParam)
+	case "slice":
+		if len(e.Args) == 4 {
+			b, off, err := sliceOf(e.Args[0], keyParam)
+			if err != nil {
+				return "", lin{}, err
+			}
+			if e.Args[1].Op == "const" && e.Args[1].Name == "_" {
+				return b, off, nil
+			}
+			lo, err := evalLin(e.Args[1], keyParam)
+			if err != nil {
+				return "", lin{}, err
+			}
+			return b, addLin(off, lo), nil
+		}
 	}
 	return "", lin{}, fmt.Errorf("uninterpreted slice %s", e.String())
 }
@@ -672,6 +699,41 @@ func extent(e *ir.Expr, keyParam string) (lin, lin, error) {
 			return parseArgs(e.Args[0], keyParam)
 		}
 	case "slice":
+		if len(e.Args) == 4 && !(e.Args[0].Op == "param" && e.Args[0].Name == keyParam) {
+			// a slice of a slice (hand-written cursor parsing: bz[1:][:n], rest[1+n:]): start = start of the inner slice + low;
+			// length = high - low when a high bound is given (otherwise what is left of the inner slice, which must then
+			// have a known length)
+			_, off, err := sliceOf(e.Args[0], keyParam)
+			if err != nil {
+				return lin{}, lin{}, err
+			}
+			lo := constLin(0)
+			if !(e.Args[1].Op == "const" && e.Args[1].Name == "_") {
+				if lo, err = evalLin(e.Args[1], keyParam); err != nil {
+					return lin{}, lin{}, err
+				}
+			}
+			if e.Args[2].Op == "const" && e.Args[2].Name == "_" {
+				_, iln, err := extent(e.Args[0], keyParam)
+				if err != nil {
+					return lin{}, lin{}, fmt.Errorf("open-ended slice %s", e.String())
+				}
+				neg := lin{c: -lo.c, s: map[string]int{}}
+				for k, v := range lo.s {
+					neg.s[k] = -v
+				}
+				return addLin(off, lo), addLin(iln, neg), nil
+			}
+			hi, err := evalLin(e.Args[2], keyParam)
+			if err != nil {
+				return lin{}, lin{}, err
+			}
+			neg := lin{c: -lo.c, s: map[string]int{}}
+			for k, v := range lo.s {
+				neg.s[k] = -v
+			}
+			return addLin(off, lo), addLin(hi, neg), nil
+		}
 		if len(e.Args) == 4 && e.Args[0].Op == "param" && e.Args[0].Name == keyParam {
 			lo, err := evalLin(e.Args[1], keyParam)
 			if err != nil {
@@ -734,6 +796,7 @@ func streamParsers(c *Ctx, builders map[string][]builderInfo) {
 	}
 	// full-key parser
 	np := 0
+	storeKeyParsers := map[*ssa.Function]bool{} // two-address parsers of keys whose section prefix a prefix store has stripped
 	for _, f := range w.PkgFuncs("x/stream/types") {
 		if w.IsGenerated(f) || f.Parent() != nil || len(f.Params) != 1 || f.Params[0].Type().String() != "[]byte" {
 			continue
@@ -753,23 +816,32 @@ func streamParsers(c *Ctx, builders map[string][]builderInfo) {
 		key := f.Params[0].Name()
 		switch res.Len() {
 		case 2:
+			// a two-address parser reads either a full key (section prefix first) or a key as seen through a store prefixed
+			// with the section prefix (the prefix already stripped): whichever layout its first result fits decides, and
+			// its call sites are then held to that layout (A11.reprefix)
+			stripped, _ := layoutExtents(full[1:], constLen)
+			wantK := want
+			if st0, ln0, err := extent(sum.Args[0], key); err == nil && len(stripped) == 2 && st0.String() == stripped[0][0].String() && ln0.String() == stripped[0][1].String() {
+				wantK = stripped
+				storeKeyParsers[f] = true
+			}
 			for i := 0; i < 2; i++ {
 				st, ln, err := extent(sum.Args[i], key)
 				if err != nil {
-					r.Undecided("A11.parser", fmt.Sprintf("%s#%d", fn(f), i), w.Pos(f.Pos()), "parser result is an interpretable sub-slice of the key", err.Error())
+					parserErr(c, fmt.Sprintf("%s#%d", fn(f), i), w.Pos(f.Pos()), err)
 					continue
 				}
-				ok := st.String() == want[i][0].String() && ln.String() == want[i][1].String()
+				ok := st.String() == wantK[i][0].String() && ln.String() == wantK[i][1].String()
 				r.Require(ok, "A11.parser", fmt.Sprintf("%s#%d", fn(f), i), w.Pos(f.Pos()),
 					fmt.Sprintf("result %d of the stream-key parser is the payload of builder segment %d (%s)", i, i+1, roles[i]),
-					fmt.Sprintf("reads [%s,+%s), builder writes [%s,+%s)", st, ln, want[i][0], want[i][1]))
+					fmt.Sprintf("reads [%s,+%s), builder writes [%s,+%s)", st, ln, wantK[i][0], wantK[i][1]))
 			}
 		case 1:
 			// parser of a key whose section prefix and first (receiver) segment were stripped by a prefix store
 			rest, _ := layoutExtents(full[2:], constLen)
 			st, ln, err := extent(sum.Args[0], key)
 			if err != nil {
-				r.Undecided("A11.parser", fn(f), w.Pos(f.Pos()), "parser result is an interpretable sub-slice of the key", err.Error())
+				parserErr(c, fn(f), w.Pos(f.Pos()), err)
 				continue
 			}
 			ok := len(rest) == 1 && st.String() == rest[0][0].String() && ln.String() == rest[0][1].String()
@@ -792,6 +864,19 @@ func streamParsers(c *Ctx, builders map[string][]builderInfo) {
 				}
 				sc := call.Common().StaticCallee()
 				if sc == nil {
+					continue
+				}
+				if storeKeyParsers[sc] {
+					// used on the key of a store prefixed with the section prefix alone, or on a full key with that prefix sliced off
+					arg := w.Expand(w.ExprOf(call.Common().Args[0]), 4)
+					good := closureIteratesShape(c, f, full[:1])
+					if !good && arg.Op == "slice" && len(arg.Args) == 4 && arg.Args[1].Op == "call" && arg.Args[1].Name == "builtin:len" && len(arg.Args[1].Args) == 1 && arg.Args[1].Args[0].Op == "global" && arg.Args[1].Args[0].Name == sec {
+						good = true // key[len(prefix):] of a full key (whose own origin the full-key parser's call sites answer for)
+					}
+					if !good {
+						good = viaCallers(c, f, 0, func(g *ssa.Function) bool { return closureIteratesShape(c, g, full[:1]) })
+					}
+					r.Require(good, "A11.reprefix", fn(f)+"|"+sc.Name(), pos(c, in), "the store-key parser is used only on keys of a store prefixed by the section prefix alone (or on a full key with that prefix sliced off)", arg.String())
 					continue
 				}
 				switch fn(sc) {
@@ -896,4 +981,38 @@ func iteratorOverSection(c *Ctx, f *ssa.Function, sec string) bool {
 		}
 	}
 	return false
+}
+
+// parserErr reports a parser result that could not be read as a sub-slice of the key: offset arithmetic done in the width
+// of the length byte is a violation in its own right (it wraps for a 255-byte segment); anything else is undecided.
+func parserErr(c *Ctx, key, at string, err error) {
+	if strings.Contains(err.Error(), "in byte width") {
+		c.R.Bad("A11.parser", key+"|width", at, "a key parser widens the length byte before doing offset arithmetic with it (1+len in byte arithmetic wraps to 0 for a 255-byte address, the SDK's maximum)", err.Error())
+		return
+	}
+	c.R.Undecided("A11.parser", key, at, "parser result is an interpretable sub-slice of the key", err.Error())
+}
+
+// streamKeyBuilders: the key builders of the stream section with their layouts (for properties that need the stream-key
+// parser rule without the rest of C18).
+func streamKeyBuilders(c *Ctx) map[string][]builderInfo {
+	w := c.W
+	out := map[string][]builderInfo{}
+	for _, f := range w.PkgFuncs("x/stream/types") {
+		if w.IsGenerated(f) || f.Parent() != nil || f.Signature.Recv() != nil || f.Signature.Results().Len() != 1 || f.Signature.Results().At(0).Type().String() != "[]byte" {
+			continue
+		}
+		sum := w.Expand(w.Summary(f), 6)
+		if sum.Op == "tuple" {
+			sum = sum.Args[0]
+		}
+		sec := w.SectionOfKey(sum)
+		if sec == "?" {
+			continue
+		}
+		if shape, err := keyShape(c, sum, 0); err == nil {
+			out[sec] = append(out[sec], builderInfo{f, shape})
+		}
+	}
+	return out
 }
